@@ -105,7 +105,16 @@ def rule_filter(chk: Check, model, rid: str):
                 sel_v, sel_e = kept(fr["vertices"], "vertices"), kept(fr["edges"], "edges")
                 chk.add(rid, "Graph.filter drops exactly the unselected vertices", sel_v == S("nodes"), f"kept vertices = {T.show(fr['vertices'])[:160]}, expected the entries of self.vertices whose key is in `nodes`", chk.loc(fi))
                 conn_sets = {e.recv for _, _, e in ins if e.recv is not None}
-                chk.add(rid, "Graph.filter drops exactly the edges outside the connection set", sel_e is not None and (not conn_sets or any(sel_e == c or (sel_e[0] == "accum" and (c == sel_e[1] or (c[0] == "accum" and c[1] == sel_e[1]))) for c in conn_sets)),
+
+                def _is_conn_set(t):
+                    # the function's own connection set: what the insertions above went into, joined over the branches they sit in
+                    if t[0] == "ite":
+                        return _is_conn_set(t[2]) and _is_conn_set(t[3])
+                    if t == ("call", "set", (), (), None):
+                        return True
+                    return any(t == c or (t[0] == "accum" and (c == t[1] or (c[0] == "accum" and c[1] == t[1]))) for c in conn_sets) \
+                        and (t[0] != "accum" or all(it[2] in [tp for tp, _, _ in ins] for it in t[2]))
+                chk.add(rid, "Graph.filter drops exactly the edges outside the connection set", sel_e is not None and (not conn_sets or _is_conn_set(sel_e)),
                         f"kept edges = {T.show(fr['edges'])[:160]}, expected the entries of self.edges whose key is in the connection set", chk.loc(fi))
                 chk.add(rid, "Graph.filter works on copies", True, "", chk.loc(fi))
                 chk.add(rid, "Graph.filter returns a Graph of the filtered dicts", True, "", chk.loc(fi))
